@@ -144,7 +144,7 @@ B09_DIFFERENT = {"INT", "VAL", "STR$"}
 
 class State:
     __slots__ = ("pc", "store", "arrays", "forstack", "gostack", "dataptr", "trace", "cond", "devcount", "steps",
-                 "inputs", "defined", "status", "seen", "zero_trip")
+                 "inputs", "defined", "status", "seen", "zero_trip", "onerr", "pending")
 
     def clone(self):
         s = State()
@@ -163,6 +163,8 @@ class State:
         s.status = self.status
         s.seen = dict(self.seen)
         s.zero_trip = self.zero_trip
+        s.onerr = self.onerr
+        s.pending = list(self.pending)
         return s
 
 
@@ -281,6 +283,7 @@ def lower(stmts_or_lines, dialect):
 
 class Machine:
     def __init__(self, prog, sem, *, init_mode="symbolic", lib=None, refmap=None, record_calls=True, interp_strings=False, for_semantics=None):
+        self.val_may_fail = False  # contracts: BASIC09's VAL raises an error for text that spells no number (ON ERROR GOTO honoured)
         self.interp_strings = interp_strings  # LEN / MID$ / LEFT$ / RIGHT$ / FIX get their meaning (C20) instead of staying uninterpreted
         self.for_semantics = for_semantics  # None: zero-trip loops end the path as outside; 'pretest' / 'bodyonce': run that reading
         self.p = prog
@@ -463,6 +466,9 @@ class Machine:
         fname = name
         if self.dialect == "b09" and name in B09_DIFFERENT:
             fname = "B09_" + name
+        if self.dialect == "b09" and name == "VAL" and self.val_may_fail:
+            fails = z3.Function("VAL_FAILS", z3.StringSort(), z3.BoolSort())
+            st.pending.append(fails(vals[0]))
         if self.dialect == "cb" and name in cbfront.CONVERTIBLE:
             return (res, self.convertible(st, name, vals, res))
         return (res, sem.apply(fname, vals, res))
@@ -555,6 +561,9 @@ class Machine:
         while work:
             st = work.pop()
             while True:
+                if st.status == "error":
+                    leaves.append(st)
+                    break
                 if st.steps >= step_bound:
                     st.status = "bound"
                     leaves.append(st)
@@ -621,7 +630,24 @@ class Machine:
                 arr = self.array(st, lv[1])
                 st.arrays[lv[1].upper()] = z3.Store(arr, self.index_key(idx), val[1])
             else:
-                self.assign(st, lv, self.ev(st, ins[2]))
+                val = self.ev(st, ins[2])
+                if st.pending:
+                    # the evaluation may have raised a run-time error: that path does not assign; it goes to the ON ERROR
+                    # handler if one is set and ends with the error otherwise
+                    f = z3.Or(*st.pending) if len(st.pending) > 1 else st.pending[0]
+                    st.pending = []
+                    s2 = st.clone()
+                    s2.cond.append(f)
+                    st.cond.append(z3.Not(f))
+                    self.assign(st, lv, val)
+                    st.pc += 1
+                    if s2.onerr is not None:
+                        self.jump_label(s2, s2.onerr)
+                    else:
+                        s2.status = "error"
+                        s2.trace.append(("error", "run-time error in an expression"))
+                    return [st, s2]
+                self.assign(st, lv, val)
             st.pc += 1
             return True
         if k == "print":
@@ -863,6 +889,7 @@ class Machine:
             return True
         if k in ("onerr", "onerror"):
             st.trace.append(("on-error", ins[-1]))
+            st.onerr = ins[-1]
             st.pc += 1
             return True
         raise ValueError(f"unknown instruction {ins!r}")
@@ -930,4 +957,6 @@ def initial_state():
     st.status = None
     st.seen = {}
     st.zero_trip = False
+    st.onerr = None
+    st.pending = []
     return st
